@@ -156,6 +156,11 @@ func vfCompareDegraded(intact, got *vfTree) []string {
 			fld("read", g.Read, in.Read)
 			fld("readstrings", g.Strings, in.Strings)
 			fld("readcompound", g.Compound, in.Compound)
+			if in.Partial[0] != "" && g.Partial[0] != "" {
+				fld("readslice", g.Partial[0], in.Partial[0])
+				fld("readslice-retried-on-the-same-handle", g.Partial[1], in.Partial[1])
+				fld("chunk-iteration", g.Partial[2], in.Partial[2])
+			}
 		}
 		if g.Kind == "group" && fmt.Sprint(g.Children) != fmt.Sprint(in.Children) {
 			if len(g.Children) < len(in.Children) {
@@ -195,6 +200,8 @@ func TestVerif_C17(t *testing.T) {
 	r := vkit.Start(t, "C17", "fault_enumeration")
 	defer r.Finish()
 	dir := vkit.Scratch(t)
+	vfDumpPartial = true // the traversal includes ReadSlice (twice on the same handle) and a full chunk iteration
+	defer func() { vfDumpPartial = false }()
 	bases := vfLibBaseFiles(t, dir)
 	nCorpus, maxSize := 8, int64(8192)
 	if r.Thorough() {
@@ -224,7 +231,7 @@ func TestVerif_C17(t *testing.T) {
 	if !vosActive {
 		r.Cap("the os->vos import redirection is not active in this build (instrumentation degraded): only truncation is enumerated")
 	}
-	r.Rule("base files: 6 library-written files (one per feature) and small reference-library files with distinct feature signatures; (a) every truncation length 0..size-1 of every base file; (b) for every base file and every k, the k-th ReadAt of the full read-API traversal (Open, Walk, Info, Read, ReadStrings, ReadCompound, Attributes+ReadValue) failing outright, and returning short with EOF; (c) for a 7-call write history under superblock 2 and 0, every k-th WriteAt / ReadAt / Sync failing (outright, and short for writes): the API call in which the fault fires must return an error, nothing may panic, Close must return. In (a),(b) every answer must be an error or identical to the intact file's and no member or attribute may be silently missing; non-trivial = the damaged file still opened")
+	r.Rule("base files: 6 library-written files (one per feature) and small reference-library files with distinct feature signatures; (a) every truncation length 0..size-1 of every base file; (b) for every base file and every k, the k-th ReadAt of the full read-API traversal (Open, Walk, Info, Read, ReadSlice of the full extent twice on the same handle, full chunk iteration, ReadStrings, ReadCompound, Attributes+ReadValue) failing outright, and returning short with EOF; (c) for a 7-call write history under superblock 2 and 0, every k-th WriteAt / ReadAt / Sync failing (outright, and short for writes): the API call in which the fault fires must return an error, nothing may panic, Close must return. In (a),(b) every answer must be an error or identical to the intact file's and no member or attribute may be silently missing; non-trivial = the damaged file still opened")
 
 	// (a) truncation
 	for _, b := range bases {
